@@ -53,6 +53,8 @@ func (cfg *Config) VerifyConfig(schema base.LogSchema) error {
 func (tf *parseTimeTransform) Transform(record *base.LogRecord) base.FilterResult {
 	value := tf.keyLocator.Get(record.Fields)
 	if len(value) == 0 {
+		tf.errorCounter(record.RawLength)
+		tf.errorLogger.Warn("failed to parse timestamp: empty value")
 		return base.PASS
 	}
 	tm, err := parseRFC3339Timestamp(value, tf.timezoneCache)
